@@ -46,17 +46,16 @@ def check(ck):
         if isinstance(v, ast.Constant) and v.value is True:
             n1 += 1
             by_join = any(j.id in d[rn.id] for j in qjoin)
-            by_count = any(g.nodes[i].kind == "branch" and "unfinished_tasks" in dump(g.nodes[i].test) and
-                           g.nodes[i].polarity == (not dump(g.nodes[i].test).startswith("self._queue.unfinished_tasks")) for i in d[rn.id])
-            # `not self._queue.unfinished_tasks` is split by the CFG into a branch on the operand with flipped polarity
-            by_count = by_count or any(g.nodes[i].kind == "branch" and dump(g.nodes[i].test) == "self._queue.unfinished_tasks" and not g.nodes[i].polarity
-                                       for i in d[rn.id])
+            # a dominating branch edge that can only be taken when the unfinished-task count is 0 (the test folded for 0, 1, many)
+            by_count = False
             for i in d[rn.id]:
                 b = g.nodes[i]
-                if b.kind == "branch" and isinstance(b.test, ast.Compare) and len(b.test.ops) == 1 and dump(b.test.left) == "self._queue.unfinished_tasks" \
-                        and isinstance(b.test.comparators[0], ast.Constant) and b.test.comparators[0].value == 0:
-                    opn = type(b.test.ops[0]).__name__
-                    if (opn in ("Eq", "LtE") and b.polarity) or (opn in ("NotEq", "Gt") and not b.polarity):
+                if b.kind == "branch" and "self._queue.unfinished_tasks" in dump(b.test):
+                    try:
+                        taken = [k_ for k_ in (0, 1, 7) if bool(common.fold_int_predicate(b.test, "self._queue.unfinished_tasks", k_)) == bool(b.polarity)]
+                    except AnalysisError:
+                        continue
+                    if taken == [0]:
                         by_count = True
             empties = [dump(g.nodes[i].test) for i in d[rn.id] if g.nodes[i].kind == "branch" and ("empty()" in dump(g.nodes[i].test) or "qsize()" in dump(g.nodes[i].test))]
             ck.require(by_join or by_count, "C11.1", "%s: `return True` #%d" % (q.fn(fj), n1), "dominated by Queue.join() or an unfinished-task test",
@@ -82,8 +81,15 @@ def check(ck):
                 ck.require(t == ("param", "timeout"), "C11.2", "%s: wait(timeout)" % q.fn(fj), "waits the caller's timeout",
                            "the timed join waits %s" % (prov.show(t) if t else "without timeout"), q.loc(fj, w))
         rets = [n for n in g.live_nodes() if n.kind == "return" and w.id in d[n.id]]
-        ck.require(len(rets) == 1 and dump(rets[0].ast.value) in ("not bool(self._queue.unfinished_tasks)", "not self._queue.unfinished_tasks",
-                                                                  "self._queue.unfinished_tasks == 0"),
+        okr = False
+        if len(rets) == 1 and rets[0].ast.value is not None:
+            # the returned expression, folded for 0, 1 and many unfinished tasks: True exactly for 0
+            try:
+                vals = [common.fold_int_predicate(rets[0].ast.value, "self._queue.unfinished_tasks", k_) for k_ in (0, 1, 7)]
+                okr = [bool(v) for v in vals] == [True, False, False]
+            except AnalysisError:
+                okr = False
+        ck.require(okr,
                    "C11.2", "%s: timed join returns `not unfinished_tasks`" % q.fn(fj), "completion reported from the unfinished count",
                    "the timed join returns `%s`" % (dump(rets[0].ast.value) if rets else None), q.loc(fj, w))
 
@@ -205,7 +211,7 @@ def check(ck):
 
     # ---- C11.4 / C11.5 / C11.6: shared clauses ---------------------------------------------------------------
     from rules import c09, c10
-    common.import_rules(ck, c10, {"C10.7": "C11.4", "C10.7b": "C11.4"})
+    common.import_rules(ck, c10, {"C10.7": "C11.4", "C10.7b": "C11.4", "C10.4": "C11.4"})      # (a restart runs start(): C10.4)
     common.import_rules(ck, c09, {"C09.2": "C11.5", "C09.5": "C11.6", "C09.6": "C11.6"})
     ck.floor("C11.6", 3)
     ck.floor("C11.4", 6)
